@@ -443,8 +443,18 @@ def make_case(seed, tier="quick"):
     alt = kn_rng.random() < 0.25
     dct = kn_rng.choice(["float", "float32", "float64"]) if alt or kn_rng.random() < 0.15 else None
     n = kn_rng.randint(5, 120 if tier == "thorough" else 80)
-    return {"seed": seed, "alt": alt, "default_constant_type": dct, "ops": gen_ops(ops_rng, kn, n),
-            "inputs_seed": seed & 0xFFFF}
+    ops = gen_ops(ops_rng, kn, n)
+    if kn_rng.random() < 0.3:
+        # two contexts used alternately in one process
+        sw = stream(seed, "contexts")
+        cur = 0
+        wrapped = []
+        for op in ops:
+            if sw.random() < 0.2:
+                cur = 1 - cur
+            wrapped.append(["in", cur, op])
+        ops = wrapped
+    return {"seed": seed, "alt": alt, "default_constant_type": dct, "ops": ops, "inputs_seed": seed & 0xFFFF}
 
 
 # ------------------------------------------------------------------ the structural model + executor
@@ -467,6 +477,10 @@ class Sim:
         self.done = []  # (callable, description) of completed plain constructions, for "again"
         self.req_tree = {}  # id(obj) -> request tree for arithmetic roots
         self.req_roots = []
+        # a second context of the same process, used alternately (expressions are singletons per context;
+        # nothing of one context may surface in the other)
+        self.bundles = [None, None]
+        self.current = 0
         self.keep = []  # every registered object, kept alive so that id() stays unique
         self.fingerprints = {}  # fingerprint -> object
         self.violations = []
@@ -477,6 +491,22 @@ class Sim:
         self.steps = 0
         self.wrapped = False
         self.in_wrapper = 0
+
+    def switch(self, k):
+        if k == self.current:
+            return
+        names = ("ctx", "vals", "done", "req_tree", "req_roots")
+        self.bundles[self.current] = {n: getattr(self, n) for n in names}
+        nb = self.bundles[k]
+        if nb is None:
+            nb = dict(ctx=self.fa.Context(paths=[self.fa.algorithms], enable_alt=self.case.get("alt") or None,
+                                          default_constant_type=self.case.get("default_constant_type")),
+                      vals=[], done=[], req_tree={}, req_roots=[])
+            self.bump(self.probes, "second_context_in_one_process")
+        for n in names:
+            setattr(self, n, nb[n])
+        self.current = k
+        self.log.ev("switch", k)
 
     # ---- bookkeeping
     def bump(self, d, k, n=1):
@@ -548,6 +578,13 @@ class Sim:
         return tuple(parts)
 
     def note_object(self, obj):
+        for i, o in enumerate(obj.operands):
+            if isinstance(o, self.Expr):
+                home = obj.context
+                if obj.kind == "constant" and i == 0:
+                    home = getattr(obj.context, "_alt", None) or obj.context  # a constant's value lives in the alternative context
+                if o.context is not home and o.context is not obj.context:
+                    self.violation("alias", "operand-from-another-context", kind=obj.kind, operand=repr(o))
         if obj.kind == "constant" and is_nan_value(obj.operands[0]):
             return
         fp = self.fingerprint(obj)
@@ -776,6 +813,9 @@ class Sim:
         self.steps += 1
         if op[0] == "fault":
             return self.step(op[2], fault=op[1])
+        if op[0] == "in":
+            self.switch(op[1])
+            return self.step(op[2], fault)
         t = op[0]
         self.log.ev("op", t, op[1] if len(op) > 1 and isinstance(op[1], str) else None)
         self.bump(self.stats, "ops")
@@ -1042,7 +1082,8 @@ class Sim:
                 continue
             seen.add(id(obj))
         tables = []
-        for c in (self.ctx, self.ctx._alt if getattr(self.ctx, "_alt", None) is not None else None):
+        ctxs = [self.ctx] + [b["ctx"] for b in self.bundles if b is not None and b["ctx"] is not self.ctx]
+        for c in [x for c0 in ctxs for x in (c0, getattr(c0, "_alt", None))]:
             if c is not None and isinstance(getattr(c, "_expressions", None), dict):
                 tables.append(c._expressions)
         fps = {}
@@ -1115,6 +1156,10 @@ def _simplify(case):
     import copy
 
     ops = case["ops"]
+    if any(op[0] == "in" and op[1] == 1 for op in ops):
+        c = copy.deepcopy(case)
+        c["ops"] = [op[2] if op[0] == "in" else op for op in ops]
+        yield c
     for i, op in enumerate(ops):
         if op[0] == "fault":
             c = copy.deepcopy(case)
